@@ -6874,7 +6874,7 @@ func ruleCtxScript(w *World, r *Report) {
 			r.exempt("CTX-SCRIPT", key, w.Pos(s.fn.Pos()), "no call from here reaches RunJavascript: shape not recognised, not decided")
 			continue
 		}
-		bad := ""
+		bad, badLoop := "", ""
 		for _, rn := range runs {
 			dom := false
 			for _, st := range sets {
@@ -6885,6 +6885,26 @@ func ruleCtxScript(w *World, r *Report) {
 			if !dom {
 				bad = w.PosOf(rn)
 			}
+			// per round: a script that runs in a loop (one per candidate binding) can leave the context at an ancestor
+			// (an inherited search that fails part-way), so the re-pointing is inside the loop as well
+			for _, l := range naturalLoops(s.fn) {
+				if !l.Body[rn.Block()] {
+					continue
+				}
+				inLoop := false
+				for _, st := range sets {
+					if l.Body[st.Block()] && (instrDominates(st, rn) || controlGuardsNil(s.fn, st, rn, s.loc)) {
+						inLoop = true
+					}
+				}
+				if !inLoop && badLoop == "" {
+					badLoop = w.PosOf(rn)
+				}
+			}
+		}
+		if bad == "" && badLoop != "" {
+			r.violation("CTX-SCRIPT", key+" per-round", badLoop, "the context is pointed at this location once, before the loop in which the scripts run: a candidate's script whose inherited search fails in a parent leaves the context there, and every later candidate's script runs under the parent's control (its time-out, its Env.AddFact)")
+			continue
 		}
 		if bad != "" {
 			r.violation("CTX-SCRIPT", key, bad, "a script can be run from here without the context having been pointed at this location: its Env functions then work on whatever location the context was pointed at last")
